@@ -85,12 +85,24 @@ pub struct RandGen<'a> {
     /// names that may be referenced (definitions are produced by `defs`)
     pub names: Vec<String>,
     pub allow_any: bool,
+    pub allow_tpl: bool,
 }
 
 const KEYS: [&str; 4] = ["a", "b", "c", "kind"];
 
 impl RandGen<'_> {
     pub fn leaf(&mut self) -> Runtype {
+        if self.allow_tpl && self.rng.chance(1, 8) {
+            use beff_core::ast::runtype::{TplLitType, TplLitTypeItem as I};
+            let c = |s: &str| I::StringConst(s.to_string());
+            let items = match self.rng.below(4) {
+                0 => vec![c("a"), I::String],
+                1 => vec![I::Number, c("px")],
+                2 => vec![I::one_of(vec![c("x"), c("y")]), c("-"), I::Boolean],
+                _ => vec![c("id-"), I::Number],
+            };
+            return Runtype::tpl_lit_type(TplLitType(items));
+        }
         match self.rng.below(12) {
             0 => Runtype::null(),
             1 => Runtype::boolean(),
@@ -391,7 +403,7 @@ pub fn to_json(t: &Runtype) -> J {
         RuntypeKind::Const(RuntypeConst::Number(n)) => json!({"num": n.to_f64()}),
         RuntypeKind::TplLitType(tpl) => match crate::refmodel::single_const(tpl) {
             Some(s) => json!({"str": s}),
-            None => json!({"unsupported": tpl.describe()}),
+            None => json!({"tpl": tpl.0.iter().map(tpl_item_json).collect::<Vec<_>>()}),
         },
         RuntypeKind::Array(e) => json!({"array": to_json(e)}),
         RuntypeKind::StNot(e) => json!({"not": to_json(e)}),
@@ -408,6 +420,32 @@ pub fn to_json(t: &Runtype) -> J {
             other => json!({"unsupported": format!("{:?}", other)}),
         },
         other => json!({"unsupported": crate::refmodel::kind_name(other)}),
+    }
+}
+
+fn tpl_item_json(i: &beff_core::ast::runtype::TplLitTypeItem) -> J {
+    use beff_core::ast::runtype::TplLitTypeItem as I;
+    match i {
+        I::String => json!("string"),
+        I::Number => json!("number"),
+        I::Boolean => json!("boolean"),
+        I::StringConst(c) => json!({"c": c}),
+        I::OneOf(a) => json!({"oneof": a.iter().map(tpl_item_json).collect::<Vec<_>>()}),
+    }
+}
+fn tpl_item_from(j: &J) -> beff_core::ast::runtype::TplLitTypeItem {
+    use beff_core::ast::runtype::TplLitTypeItem as I;
+    match j.as_str() {
+        Some("string") => I::String,
+        Some("number") => I::Number,
+        Some("boolean") => I::Boolean,
+        _ => {
+            if let Some(c) = j.get("c") {
+                I::StringConst(c.as_str().unwrap().to_string())
+            } else {
+                I::one_of(j["oneof"].as_array().unwrap().iter().map(tpl_item_from).collect())
+            }
+        }
     }
 }
 
@@ -433,6 +471,9 @@ pub fn from_json(j: &J) -> Runtype {
     }
     if let Some(s) = o.get("str") {
         return lit_s(s.as_str().unwrap());
+    }
+    if let Some(t) = o.get("tpl") {
+        return Runtype::tpl_lit_type(beff_core::ast::runtype::TplLitType(t.as_array().unwrap().iter().map(tpl_item_from).collect()));
     }
     if let Some(e) = o.get("array") {
         return Runtype::array(Box::new(from_json(e)));
